@@ -1461,7 +1461,8 @@ def i_convert(m, alt, fr, ins, work):
 
         def s2b(s):
             if type(s) is Opaque:
-                return s
+                obj = m.new_obj(alt, (s,), disc=1)
+                return Slice(obj, (), 0, 1, 1)
             if type(s) is not str:
                 raise Unsupported("convert %r to slice" % (s,))
             data = tuple(s.encode("utf-8")) if et["bits"] == 8 else tuple(ord(c) for c in s)
@@ -1480,6 +1481,8 @@ def i_convert(m, alt, fr, ins, work):
                 raise Unsupported("symbolic-length bytes -> string")
             arr = nav(m.hget(alt, s.obj), s.path)
             data = arr[s.off:s.off + s.len]
+            if len(data) == 1 and type(data[0]) is Opaque:
+                return data[0]   # uninterpreted text (e.g. marshalled JSON)
             if not all(is_int_conc(b) for b in data):
                 raise Unsupported("symbolic bytes -> string")
             if et["bits"] == 8:
